@@ -283,7 +283,7 @@ func (n *c14Node) patterns(out map[string]bool) {
 
 // c14Spec is everything needed to rebuild one generated condition (also the replay format).
 type c14Spec struct {
-	Shape    string `json:"shape"` // plain | defined-and | defined-other-and | quoted | not-quoted | double-not | paren | not-paren | or-two | and-two | same-twice | and-three | and-wrong-occurrence
+	Shape    string `json:"shape"` // plain | defined-and | defined-other-and | quoted | not-quoted | double-not | paren | not-paren | or-two | and-two | same-twice | and-three | defined-mid-and | and-wrong-occurrence
 	Form     string `json:"form"`  // bare | not-bare | empty | not-empty
 	Pat      string `json:"pat"`   // hex in the replay file
 	Positive bool   `json:"positive"`
@@ -353,6 +353,9 @@ func c14Atom(v string, form string, mods []string) *c14Node {
 
 func (s c14Spec) mods(pat string) []string {
 	var ms []string
+	if s.Prefix == "-" {
+		return nil // no modifier at all: ${V}, empty(V) -- the n == 0 exits of the three simplifiers
+	}
 	if s.Prefix != "" {
 		ms = append(ms, s.Prefix)
 	}
@@ -391,6 +394,10 @@ func (s c14Spec) build() (cond string, tree *c14Node) {
 		tree = &c14Node{K: 'O', Kids: []*c14Node{atom, c14Atom(v, s.Form, s.mods(s.Pat))}}
 	case "and-three":
 		tree = &c14Node{K: 'A', Kids: []*c14Node{{K: 'D', Var: v}, atom, x1}}
+	case "defined-mid-and":
+		// defined(V) && ${V} != "zzz" && <atom>: the middle part is only evaluated when V is defined
+		mid := &c14Node{K: 'X', Text: "${" + v + "} != \"zzz\""}
+		tree = &c14Node{K: 'A', Kids: []*c14Node{{K: 'D', Var: v}, mid, atom}}
 	case "and-wrong-occurrence":
 		// !defined(V) && 1 || defined(V)  && <atom>   (two blanks in the second conjunction)
 		left := &c14Node{K: 'A', Kids: []*c14Node{{K: 'N', Kids: []*c14Node{{K: 'D', Var: v}}}, x1}}
@@ -416,8 +423,60 @@ var c14Patterns = []string{
 	"al*", "*", "?lpha", "[a-f]*", "[0-9]*", "[0-9].*", "[1-9]", "*.c", "0x0.?", "1e?", "*[0-9]", "[ab]lpha", "0x[0-9].", "0x[0-9].[0-9]", "[0-9]e[0-9]", "[0-9].[0-9]",
 	// yes/no classes and near misses
 	"[yY][eE][sS]", "[Yy][Ee][Ss]", "[nN][oO]", "[Nn][Oo]", "[yY][eE][s]", "[yY]", "[yY][eE][sS]*", "[yY][Ee][sS]", "[yy][eE][sS]",
+	// nested references: bmake expands them before matching, mayMatchNumber sees the text
+	"${C14LV}", "${C14LV}*", "[${C14LV}]", "*${C14LV}", "al${C14LV}", "${C14LV}.${C14LW}", "${C14LV}[0-9]", "${C14LV}${C14LW}",
+	// patterns makepat.Compile rejects (mayMatchNumber's error exit), literals with a byte outside mkCondModifierPatternLiteral
+	"[a", "al[", "[0-", "a~b", "x%y",
 	// empty
 	"",
+}
+
+// the variables that patterns refer to, and the values they take when a rewritten
+// condition is judged (nil = undefined): number-like words, glob metacharacters,
+// the empty string, plain words
+var c14NestedVars = []string{"C14LV", "C14LW"}
+
+var c14NestedValues = []*string{nil, sp(""), sp("0"), sp("0x0"), sp("0.0"), sp("+0"), sp("00"), sp("1"), sp("*"), sp("[0-9]"), sp("?"), sp("al"), sp("alpha"), sp("pha"), sp("e"), sp("x")}
+
+func sp(s string) *string { return &s }
+
+// the nested variables a condition text mentions
+func c14NestedIn(text string) []string {
+	var out []string
+	for _, n := range c14NestedVars {
+		if strings.Contains(text, "${"+n+"}") {
+			out = append(out, n)
+		}
+	}
+	return out
+}
+
+// the environments of the nested variables a step is judged under: every value for
+// one variable; for two, every value of the first against a rotating value of the second
+// plus the diagonal
+func c14NestedBindings(names []string) [][]*string {
+	var out [][]*string
+	switch len(names) {
+	case 0:
+		return nil
+	case 1:
+		for _, v := range c14NestedValues {
+			out = append(out, []*string{v})
+		}
+	default:
+		n := len(c14NestedValues)
+		for i, v := range c14NestedValues {
+			out = append(out, []*string{v, c14NestedValues[i]}, []*string{v, c14NestedValues[(i+3)%n]}, []*string{v, c14NestedValues[(2*i+1)%n]})
+		}
+	}
+	return out
+}
+
+func c14ValTok(v *string) string {
+	if v == nil {
+		return "U"
+	}
+	return "V" + hx(*v)
 }
 
 var c14Values = []string{
@@ -433,6 +492,8 @@ func c14PatClass(pat string, num map[string]int) string {
 		return "empty-pattern"
 	case c14YesNoLower(pat) != "":
 		return "yesno-class"
+	case strings.Contains(pat, "$"):
+		return "nested-ref"
 	case strings.ContainsAny(pat, "*?[\\$"):
 		return "glob"
 	case c14ReDigits.MatchString(pat):
@@ -513,6 +574,17 @@ type c14State struct {
 	extraVal map[string][]string // pattern -> numeric words it matches although mayMatchNumber says no
 	mmnCache map[string]string
 	distinct map[string]bool
+	cross    []c14Cross // evaluation requests kept for the extraction cross-check
+	crossN   int
+}
+
+// one evaluation request and the extracted oracle's answer to it
+type c14Cross struct {
+	a, b, name string
+	nnames     []string
+	nvals      []*string
+	values     []*string
+	answer     string
 }
 
 func c14MmnCode(pat string) string {
@@ -633,6 +705,12 @@ func (st *c14State) runCases(cases []*c14Case) {
 	// 3. correspondence model = implementation
 	for _, c := range cases {
 		res.TracesValidated++
+		if strings.Contains(c.spec.Pat, "$") {
+			res.Count("nested_pattern_cases", 1)
+			if c.newLine == c.line {
+				res.Count("nested_pattern_left_alone", 1)
+			}
+		}
 		if c.panicked != "" {
 			res.AddViolation(Violation{Key: "C14/panic", What: fmt.Sprintf("MkCondChecker.Check panics on %q: %s", c.line, c.panicked),
 				FoundInput: true, Size: len(c.line), Replay: c.replay(nil)})
@@ -746,6 +824,8 @@ func (st *c14State) judge(cases []*c14Case) {
 		from, to string // the fix
 		a, b     string // condition text before and after
 		values   []*string
+		nnames   []string  // the nested variables the condition mentions ...
+		nvals    []*string // ... and their values in this evaluation
 	}
 	var steps []step
 	var ereqs []string
@@ -792,23 +872,38 @@ func (st *c14State) judge(cases []*c14Case) {
 			if agrees {
 				kind = c.model.applied[k].kind
 			}
-			chain = append(chain, step{c, kind, fx[0], fx[1], cur, next, vals})
+			chain = append(chain, step{c, kind, fx[0], fx[1], cur, next, vals, nil, nil})
 			cur = next
 		}
 		if !ok || cur != c.newLine || len(chain) == 0 {
-			chain = []step{{c, "unexplained", "", "", c.line, c.newLine, vals}}
+			chain = []step{{c, "unexplained", "", "", c.line, c.newLine, vals, nil, nil}}
 		}
 		for _, s := range chain {
-			toks := []string{"e", hx(c14CondText(s.a)), hx(c14CondText(s.b)), hx(c.v.Name)}
-			for _, v := range vals {
-				if v == nil {
-					toks = append(toks, "U")
-				} else {
-					toks = append(toks, "V"+hx(*v))
+			names := c14NestedIn(s.a + " " + s.b)
+			if len(names) == 0 {
+				toks := []string{"e", hx(c14CondText(s.a)), hx(c14CondText(s.b)), hx(c.v.Name)}
+				for _, v := range vals {
+					toks = append(toks, c14ValTok(v))
 				}
+				steps = append(steps, s)
+				ereqs = append(ereqs, strings.Join(toks, " "))
+				continue
 			}
-			steps = append(steps, s)
-			ereqs = append(ereqs, strings.Join(toks, " "))
+			// a pattern with nested references: one evaluation per environment of the nested variables
+			res.Count(c.layer+"_nested_rewritten", 1)
+			for _, bind := range c14NestedBindings(names) {
+				toks := []string{"E", hx(c14CondText(s.a)), hx(c14CondText(s.b)), hx(c.v.Name), fmt.Sprint(len(names))}
+				for i, n := range names {
+					toks = append(toks, hx(n), c14ValTok(bind[i]))
+				}
+				for _, v := range vals {
+					toks = append(toks, c14ValTok(v))
+				}
+				s2 := s
+				s2.nnames, s2.nvals = names, bind
+				steps = append(steps, s2)
+				ereqs = append(ereqs, strings.Join(toks, " "))
+			}
 		}
 	}
 	eans, err := runOracle(st.ctx, "c14", ereqs)
@@ -823,6 +918,11 @@ func (st *c14State) judge(cases []*c14Case) {
 		if len(pairs) != len(s.values) {
 			res.Broken = "oracle e answer " + q(eans[i])
 			return
+		}
+		// keep some requests (nested environments preferred) for the extraction cross-check
+		st.crossN++
+		if len(s.values) > 0 && (len(s.nnames) > 0 && len(st.cross) < 120 && st.crossN%7 == 0 || len(s.nnames) == 0 && len(st.cross) < 160 && st.crossN%97 == 0) {
+			st.cross = append(st.cross, c14Cross{c14CondText(s.a), c14CondText(s.b), c.v.Name, s.nnames, s.nvals, s.values, eans[i]})
 		}
 		for k, pr := range pairs {
 			res.Evaluations++
@@ -861,12 +961,31 @@ func (st *c14State) judge(cases []*c14Case) {
 				if c.layer == "wholerun" {
 					what = "pkglint -F: " + what
 				}
+				rep := c.replay(v)
+				nest := ""
+				if len(s.nnames) > 0 {
+					res.Count("nested_counterexamples", 1)
+					nm := map[string]string{}
+					for i, nn := range s.nnames {
+						nm[nn] = c14ValTok(s.nvals[i])
+						nv := "undefined"
+						if s.nvals[i] != nil {
+							nv = q(*s.nvals[i])
+						}
+						nest += fmt.Sprintf(", %s = %s", nn, nv)
+						size += len(nv)
+					}
+					rep["nested"] = nm
+				}
 				res.AddViolation(Violation{Key: "C14/" + st.cause(c, s.kind, s.from, v, n),
-					What: fmt.Sprintf("%s; with %s = %s (%s) the original is %s, the rewritten condition is %s",
-						what, c.v.Name, vs, c.v.Kind, tr[o], tr[n]),
-					FoundInput: true, Size: size, Replay: c.replay(v)})
+					What: fmt.Sprintf("%s; with %s = %s (%s)%s the original is %s, the rewritten condition is %s",
+						what, c.v.Name, vs, c.v.Kind, nest, tr[o], tr[n]),
+					FoundInput: true, Size: size, Replay: rep})
 			default:
 				res.Count("preserved_"+string(o), 1)
+				if len(s.nnames) > 0 {
+					res.Count("nested_preserved", 1)
+				}
 			}
 		}
 	}
@@ -956,13 +1075,22 @@ func c14Exhaustive(thorough bool) []c14Spec {
 			}
 		}
 	}
+	// no modifier at all
+	for _, k := range c14Kinds {
+		for _, def := range []string{"D", "U"} {
+			for _, f := range forms {
+				add(c14Spec{"plain", f, "", true, "-", k.tag, def, true, 0, "", ""})
+				add(c14Spec{"defined-and", f, "", true, "-", k.tag, def, true, 0, "", ""})
+			}
+		}
+	}
 	// compound shapes
 	shapes := []string{"defined-and", "defined-other-and", "quoted", "not-quoted", "double-not", "paren", "not-paren",
-		"or-two", "and-two", "same-twice", "and-three", "and-wrong-occurrence"}
+		"or-two", "and-two", "same-twice", "and-three", "defined-mid-and", "and-wrong-occurrence"}
 	for _, sh := range shapes {
 		for _, tag := range []string{"EA", "ID", "YN", "LI", "UK"} {
 			for _, def := range []string{"D", "U"} {
-				for _, p := range []string{"alpha", "0", "al*", "[0-9]*", "[yY][eE][sS]", ""} {
+				for _, p := range []string{"alpha", "0", "al*", "[0-9]*", "[yY][eE][sS]", "", "${C14LV}*", "${C14LV}"} {
 					for _, pos := range []bool{true, false} {
 						for _, f := range forms {
 							add(c14Spec{sh, f, p, pos, "", tag, def, true, 0, "", ""})
@@ -1016,7 +1144,7 @@ func c14Exhaustive(thorough bool) []c14Spec {
 
 func c14Random(rng *Rng, n int) []c14Spec {
 	// random patterns from pieces, so that literal / numeric / glob / class boundaries are crossed
-	pieces := []string{"a", "b", "Z", "0", "1", "9", ".", "e", "x", "-", "+", "*", "?", "[0-9]", "[a-z]", "[yY]", "[Ee]", "[sS]", "[nN]", "[oO]", ",", "/", "_", "<", "@"}
+	pieces := []string{"a", "b", "Z", "0", "1", "9", ".", "e", "x", "-", "+", "*", "?", "[0-9]", "[a-z]", "[yY]", "[Ee]", "[sS]", "[nN]", "[oO]", ",", "/", "_", "<", "@", "${C14LV}", "${C14LW}"}
 	shapes := []string{"plain", "plain", "plain", "plain", "defined-and", "quoted", "double-not", "paren", "or-two", "and-two"}
 	var out []c14Spec
 	for i := 0; i < n; i++ {
@@ -1104,6 +1232,100 @@ func (st *c14State) checkMayMatchNumber(patterns []string) {
 			}
 		}
 	}
+}
+
+// ---------- extraction cross-check ----------
+
+func c14CoqOpt(v *string) string {
+	if v == nil {
+		return "None"
+	}
+	return "(Some " + c09CoqStr(*v) + ")"
+}
+
+// c14CrossCheckExtraction re-evaluates up to 160 of the oracle's evaluation requests
+// (the spec's reader and evaluator incl. expand_pat / env_of, as extracted to OCaml)
+// and a fixed set of pattern expansions with coqc's vm_compute on the Gallina definitions.
+func (st *c14State) c14CrossCheckExtraction() {
+	ctx, res := st.ctx, st.res
+	tri := map[byte]string{'T': "Some TTrue", 'F': "Some TFalse", 'M': "Some TMalformed", 'X': "None"}
+	var sb strings.Builder
+	sb.WriteString("From PV Require Import Lib.Bytes Spec.BmakeCond.\nOpen Scope N_scope.\n")
+	n := 0
+	for i, c := range st.cross {
+		pairs := strings.Fields(c.answer)
+		if len(pairs) != len(c.values) {
+			continue
+		}
+		var nested, vals, want []string
+		for k, nn := range c.nnames {
+			nested = append(nested, "("+c09CoqStr(nn)+", "+c14CoqOpt(c.nvals[k])+")")
+		}
+		for k, v := range c.values {
+			if k >= 12 {
+				break
+			}
+			vals = append(vals, c14CoqOpt(v))
+			want = append(want, "("+tri[pairs[k][0]]+", "+tri[pairs[k][1]]+")")
+		}
+		fmt.Fprintf(&sb, "Definition a_%d : str := %s.\nDefinition b_%d : str := %s.\n", i, c09CoqStr(c.a), i, c09CoqStr(c.b))
+		fmt.Fprintf(&sb, "Example case_%d : map (fun v => let bs := (%s, v) :: [%s] in (eval_text_env a_%d bs, eval_text_env b_%d bs)) [%s] = [%s].\nProof. vm_compute. reflexivity. Qed.\n",
+			i, c09CoqStr(c.name), strings.Join(nested, "; "), i, i, strings.Join(vals, "; "), strings.Join(want, "; "))
+		n++
+	}
+	// pattern expansion on its own
+	pats := []string{"${C14LV}*", "[${C14LV}]", "al${C14LV}", "${C14LV}.${C14LW}", "al*", "", "$$", "${C14LV:tl}", "${C14LV", "$", "a${}b"}
+	var reqs []string
+	type xc struct {
+		pat  string
+		bind []*string
+	}
+	var xcs []xc
+	for _, p := range pats {
+		for k, b := range c14NestedBindings(c14NestedVars) {
+			if k%5 != 0 {
+				continue
+			}
+			xcs = append(xcs, xc{p, b})
+			reqs = append(reqs, fmt.Sprintf("x %s 2 %s %s %s %s", hx(p), hx(c14NestedVars[0]), c14ValTok(b[0]), hx(c14NestedVars[1]), c14ValTok(b[1])))
+		}
+	}
+	ans, err := runOracle(ctx, "c14", reqs)
+	if err != nil {
+		res.Broken = err.Error()
+		return
+	}
+	for i, x := range xcs {
+		want := "None"
+		if strings.HasPrefix(ans[i], "S") {
+			want = "Some " + c09CoqStr(unhx(ans[i][1:]))
+		} else if ans[i] != "N" {
+			res.Broken = "oracle x answer " + q(ans[i])
+			return
+		}
+		fmt.Fprintf(&sb, "Example xcase_%d : expand_pat (env_of [(%s, %s); (%s, %s)]) %s = %s.\nProof. vm_compute. reflexivity. Qed.\n",
+			i, c09CoqStr(c14NestedVars[0]), c14CoqOpt(x.bind[0]), c09CoqStr(c14NestedVars[1]), c14CoqOpt(x.bind[1]), c09CoqStr(x.pat), want)
+		n++
+	}
+	file := filepath.Join(ctx.Work, "c14cases.v")
+	if err := os.WriteFile(file, []byte(sb.String()), 0o644); err != nil {
+		res.Broken = err.Error()
+		return
+	}
+	cmd := exec.Command("timeout", "900", "coqc", "-Q", filepath.Join(ctx.Verif, "coq"), "PV", file)
+	cmd.Dir = ctx.Work
+	out, err := cmd.CombinedOutput()
+	if err != nil {
+		msg := string(out)
+		if len(msg) > 600 {
+			msg = msg[:600]
+		}
+		res.AddViolation(Violation{Key: "C14/extraction-vs-vm_compute",
+			What:       "the extracted oracle and coqc's vm_compute disagree on the specification's evaluator (or coqc failed): " + msg,
+			FoundInput: false, Replay: map[string]any{"broken": "extraction cross-check", "detail": msg}})
+		return
+	}
+	res.Count("vm_compute_cross_checked", n)
 }
 
 // ---------- whole-run layer ----------
@@ -1276,7 +1498,8 @@ func (st *c14State) wholeRunCases(cases []*c14Case, tag string) {
 
 func c14WholeRunSpecs(rng *Rng, n int) []c14Spec {
 	forms := []string{"bare", "not-bare", "empty", "not-empty"}
-	pats := []string{"alpha", "NetBSD", "native", "64", "0", "10", "1e1", "-1", "0x10", "al*", "Net*", "[0-9]*", "[yY][eE][sS]", "[nN][oO]", "*.c", "c++", "c99"}
+	pats := []string{"alpha", "NetBSD", "native", "64", "0", "10", "1e1", "-1", "0x10", "al*", "Net*", "[0-9]*", "[yY][eE][sS]", "[nN][oO]", "*.c", "c++", "c99",
+		"${C14LV}*", "${C14LV}", "[${C14LV}]", "${C14LV}.${C14LW}"}
 	shapes := []string{"plain", "plain", "plain", "plain", "plain", "defined-and", "paren", "double-not", "quoted"}
 	var out []c14Spec
 	for i := 0; i < n; i++ {
@@ -1369,6 +1592,10 @@ func runC14(ctx *Ctx) *Result {
 		st.wholeRun(rng, nf, per)
 	}
 
+	if res.Broken == "" {
+		st.c14CrossCheckExtraction()
+	}
+
 	res.DistinctNontrivial = len(st.distinct)
 	res.Exhaustive = false
 	for _, i := range []int{3, 1201, 4007, nexh + 5} {
@@ -1388,7 +1615,8 @@ func runC14(ctx *Ctx) *Result {
 		for _, fl := range []struct {
 			key string
 			min int
-		}{{"rewrite_word", 300}, {"rewrite_yesno", 60}, {"rewrite_match", 100}, {"rewrite_and", 20}, {"rewrite_yesno_N", 10}, {"wholerun_rewritten", 100}, {"maymatchnumber_no_checked", 5}} {
+		}{{"rewrite_word", 300}, {"rewrite_yesno", 60}, {"rewrite_match", 100}, {"rewrite_and", 20}, {"rewrite_yesno_N", 10}, {"wholerun_rewritten", 100}, {"maymatchnumber_no_checked", 5},
+			{"nested_pattern_cases", 2000}, {"nested_preserved", 500}} {
 			n, _ := res.Distribution[fl.key].(int)
 			if n < fl.min {
 				res.Broken = fmt.Sprintf("coverage floor missed: %s = %d < %d", fl.key, n, fl.min)
@@ -1396,7 +1624,7 @@ func runC14(ctx *Ctx) *Result {
 		}
 	}
 	res.Assumptions = []string{
-		"variable values contain no quotes or backslashes (bmake's Str_Words would group them); patterns contain no $ : \\ { } ( )",
+		"variable values contain no quotes or backslashes (bmake's Str_Words would group them); patterns contain no : \\ ( ) and '$' only as a nested reference ${NAME} (expanded before matching; an undefined nested variable expands to nothing)",
 		"numbers are exact rationals: double rounding, overflow and underflow of strtod are not modelled",
 		"strtod accepts hexadecimal floating constants without exponent (C99 7.20.1.3; glibc and NetBSD libc do)",
 	}
